@@ -456,8 +456,9 @@ class Printer:
 
 # ------------------------------------------------------------------ oracle ---
 def plural_cats(locale):
-    from compare_locales import plurals
-    return plurals.get_plural(locale)
+    """the locale's plural categories from the PINNED plural data (harness/plural_snapshot.py), not from the tree"""
+    from harness import plural_snapshot
+    return plural_snapshot.categories(locale)
 
 
 def expected(rp, r, lp, l, locale):
@@ -862,6 +863,8 @@ def run_css(chk, model):
 
 def run_plurals(chk, model):
     from compare_locales import plurals
+    from harness import plural_snapshot
+    plural_snapshot.check_table(chk)
     locs = list(plurals.CATEGORIES_BY_LOCALE) + [k + "-XX" for k in list(plurals.CATEGORIES_BY_LOCALE)[::5]] + \
         ["", "-", "x-unknown", "en-US-posix", "zz", None, "EN", "en_US"]
     impl, reqs = [], []
